@@ -182,6 +182,8 @@ func wireSyncFlag() string {
 	return fmt.Sprintf("%s/girc-c03-syncdead-%d-%s", os.TempDir(), ppid, start)
 }
 
+func wireSyncRemember() { os.WriteFile(wireSyncFlag(), []byte("sync lost\n"), 0o644) }
+
 func wireSyncSeenBefore() bool {
 	st, err := os.Stat(wireSyncFlag())
 	return err == nil && time.Since(st.ModTime()) < time.Hour
@@ -255,7 +257,7 @@ func (x *wireSess) flush(mark int) (pieces []string, ok bool) {
 		if time.Now().After(deadline) {
 			wireSyncFails++
 			if wireSyncFails >= 2 {
-				os.WriteFile(wireSyncFlag(), []byte("sync lost\n"), 0o644)
+				wireSyncRemember()
 			}
 			return lines, false
 		}
